@@ -77,6 +77,14 @@ pub(crate) fn apply(
             }
         }
 
+        let is_simple = matches!(
+            subtable.format,
+            kerx::Format::Format0(_) | kerx::Format::Format2(_) | kerx::Format::Format6(_)
+        );
+        if is_simple && !plan.requested_kerning {
+            continue;
+        }
+
         if reverse {
             buffer.reverse();
         }
